@@ -315,4 +315,195 @@ theorem parseValue_consumes (m : M) (f : Nat) (v : Bytes) (t : Tree) (rest : Byt
                 rw [← h.2, hrest]; simp only [List.length_drop]; omega
               · simp at h
 
+
+def NFA (f : Nat) : Prop := ∀ c g, g.frames = [] → g.view.length < f → runG0 (readAll f c) g ≠ .error .fuel
+def NFV (f : Nat) : Prop := ∀ tag content g, g.frames = [] →
+  (∀ m, content = .prim m → ∃ d len, g = St d (some len)) → g.view.length + 1 < f →
+  runG0 (readValue f tag content) g ≠ .error .fuel
+
+theorem nfv_step (f : Nat) (hA : NFA f) : NFV (f + 1) := by
+  intro tag content g hf hprim hlen
+  cases content with
+  | prim m =>
+    obtain ⟨d, len, hg⟩ := hprim m rfl
+    subst hg
+    simp only [readValue, runG0_bind, run_takeAll]
+    by_cases h : len ≤ d.length <;> simp [h]
+  | cons c =>
+    simp only [readValue, runG0_bind]
+    cases hr : runG0 (readAll f c) g with
+    | ok r => obtain ⟨⟨kids, c'⟩, g'⟩ := r; simp
+    | error e =>
+      simp only
+      intro h; cases h
+      exact hA c g hf (by omega) hr
+
+theorem header_view (m : Mode) (g : G0) (id : Ident) (len? : Option Nat) (g2 : G0)
+    (h : headerF m g = some ((id, len?), g2)) :
+    g2.frames = [] ∧ g2.view.length + 2 ≤ g.view.length ∧ ∃ k, readIdent g.view = some (id, k) := by
+  unfold headerF at h
+  cases hr : readIdent g.view with
+  | none => rw [hr] at h; cases h
+  | some r =>
+    obtain ⟨id', k⟩ := r
+    rw [hr] at h
+    simp only at h
+    obtain ⟨_, _, hk1, hk, _⟩ := C12.readIdent_bounds _ _ _ hr
+    cases hl : readLen m.isBer (g.adv k).view with
+    | none => rw [hl] at h; cases h
+    | some r2 =>
+      obtain ⟨l?, kl⟩ := r2
+      rw [hl] at h
+      simp only [Option.some.injEq, Prod.mk.injEq] at h
+      obtain ⟨⟨h1, h2⟩, h3⟩ := h
+      obtain ⟨hkl1, hkl⟩ := readLen_bound _ _ _ _ hl
+      subst h3
+      refine ⟨rfl, ?_, k, by rw [h1]⟩
+      rw [view_adv_len _ _ hkl, view_adv_len _ _ hk]
+      rw [view_adv_len _ _ hk] at hkl
+      omega
+
+theorem nfa_step (f : Nat) (hA : NFA f) (hV : NFV f) (hS : VS f) : NFA (f + 1) := by
+  intro c g hf hlen
+  rw [readAll_run _ _ _ hf]
+  unfold allF
+  cases hp : pnvF c (readValue f) g with
+  | error e =>
+    simp only
+    intro h; cases h
+    -- the error comes out of pnvF
+    unfold pnvF at hp
+    split at hp
+    · cases hp
+    · split at hp
+      · cases hp
+      · split at hp
+        · cases hp
+        · split at hp
+          · cases hp
+          · cases hh : headerF c.mode g with
+            | none => rw [hh] at hp; cases hp
+            | some r =>
+              obtain ⟨⟨id, len?⟩, g2⟩ := r
+              rw [hh] at hp
+              simp only at hp
+              obtain ⟨hf2, hv2, _⟩ := header_view _ _ _ _ _ hh
+              rcases bodyF_fuel _ _ _ _ _ hp with ⟨len, _, hle, hrun⟩ | ⟨_, hrun⟩
+              · refine hV _ _ _ rfl ?_ ?_ hrun
+                · intro m _; exact ⟨_, _, rfl⟩
+                · have hvl := view_len g2
+                  have : (St g2.data (some len)).view.length = min len g2.data.length := by
+                    simp [G0.view, List.length_take]
+                  rw [this]
+                  cases hl : g2.limit with
+                  | none => rw [hl] at hvl; simp only at hvl; omega
+                  | some l => have := hle l hl; rw [hl] at hvl; simp only at hvl; omega
+              · refine hV _ _ _ hf2 ?_ ?_ hrun
+                · intro m hm; cases hm
+                · omega
+  | ok r =>
+    obtain ⟨⟨t?, c'⟩, g'⟩ := r
+    cases t? with
+    | none => simp
+    | some t =>
+      simp only
+      -- locate g' through the grammar
+      have hnf : runG0 (readAll f c') g' ≠ .error .fuel := by
+        by_cases h1 : c.state = .done
+        · simp [pnvF, h1] at hp
+        by_cases h2 : c.state = .definite ∧ g.limit = none
+        · simp [pnvF, h1, h2] at hp
+        by_cases h3 : c.state = .definite ∧ g.limit = some 0
+        · simp [pnvF, h1, h2, h3] at hp
+        by_cases h4 : c.state = .unbounded ∧ g.view = []
+        · simp [pnvF, h1, h2, h3, h4] at hp
+        rw [pnvF_value _ _ _ h1 h2 h3 h4] at hp
+        by_cases hE : c.state = .indefinite → ∀ id k, readIdent g.view = some (id, k) → isEocIdent id = false
+        · have hv := hS c g hf hE
+          rw [hp] at hv
+          unfold specV at hv
+          cases hq : parseValue (toM c.mode) f g.view with
+          | none => rw [hq] at hv; simp [Rel0] at hv
+          | some r =>
+            obtain ⟨t', rest⟩ := r
+            rw [hq] at hv
+            simp only [Option.map, Rel0, Prod.mk.injEq] at hv
+            obtain ⟨⟨_, hc'⟩, hg'⟩ := hv
+            have hcons := parseValue_consumes _ _ _ _ _ hq
+            subst hg'
+            refine hA c' _ (adv_frames _ _) ?_
+            rw [view_adv_len _ _ (by omega)]
+            omega
+        · -- end-of-contents in an indefinite parent never yields a value
+          exfalso
+          have hE' : c.state = .indefinite ∧ ∃ id k, readIdent g.view = some (id, k) ∧ isEocIdent id = true := by
+            apply Classical.byContradiction
+            intro hn
+            apply hE
+            intro hs id k hr
+            cases hb : isEocIdent id with
+            | false => rfl
+            | true => exact absurd ⟨hs, id, k, hr, hb⟩ hn
+          obtain ⟨hs, id, k, hr, he⟩ := hE'
+          have he' : isEocIdent id = true := by simpa using he
+          unfold valuePart at hp
+          cases hh : headerF c.mode g with
+          | none => rw [hh] at hp; cases hp
+          | some r =>
+            obtain ⟨⟨id2, len?⟩, g2⟩ := r
+            rw [hh] at hp
+            simp only at hp
+            obtain ⟨_, _, k2, hr2⟩ := header_view _ _ _ _ _ hh
+            rw [hr] at hr2
+            simp only [Option.some.injEq, Prod.mk.injEq] at hr2
+            obtain ⟨hid, _⟩ := hr2
+            subst hid
+            unfold bodyF at hp
+            simp only [he', if_true, hs] at hp
+            repeat' (split at hp)
+            all_goals simp at hp
+      cases hr : runG0 (readAll f c') g' with
+      | ok r2 => obtain ⟨⟨ts, c''⟩, g''⟩ := r2; simp
+      | error e =>
+        simp only
+        intro h; cases h
+        exact hnf hr
+
+theorem nf_all : ∀ f, NFA f ∧ NFV f := by
+  intro f
+  induction f with
+  | zero => exact ⟨fun c g _ h => by omega, fun t c g _ _ h => by omega⟩
+  | succ f ih => exact ⟨nfa_step f ih.1 ih.2 (refines f).2.2.2, nfv_step f ih.1⟩
+
+/-- **the loop budget `input length + 2` is never exhausted**: the generic reader makes at most
+    that many nested/consecutive steps on any input -/
+theorem fuel_adequate (m : Mode) (d : Bytes) (f : Nat) (hf : d.length + 2 ≤ f) :
+    runG0 (decodeAll m f) (St d none) ≠ .error .fuel := by
+  unfold decodeAll decodeTop
+  simp only [runG0_bind]
+  cases hr : runG0 (readAll f ⟨.unbounded, m⟩) (St d none) with
+  | error e =>
+    simp only
+    intro h; cases h
+    exact (nf_all f).1 _ _ rfl (by simp [G0.view]; omega) hr
+  | ok r =>
+    obtain ⟨⟨ts, c'⟩, g'⟩ := r
+    simp only
+    cases hx : runG0 c'.exhausted g' with
+    | ok r2 => simp
+    | error e =>
+      simp only
+      intro h; cases h
+      exact exhausted_no_fuel (.cons c') g' hx
+
+/-- **termination with a verdict**: with the budget the driver uses, every input in every mode ends
+    in a value (everything consumed) or a content error -/
+theorem generic_terminates (m : Mode) (d : Bytes) :
+    (∃ ts, runG0 (decodeAll m (d.length + 2)) (St d none) = .ok (ts, St [] none)) ∨
+    runG0 (decodeAll m (d.length + 2)) (St d none) = .error .content := by
+  rcases generic_total m (d.length + 2) d with h | h | h
+  · exact .inl h
+  · exact .inr h
+  · exact absurd h (fuel_adequate m d _ (Nat.le_refl _))
+
 end Bcder.Props.C01
